@@ -296,18 +296,42 @@ static void pfx_cb(const struct pfx_record *r, void *data)
 static struct strlist cb_pfx, cb_key;
 static char cb_bad[400];
 
+/* hashes of the strings of a shadow set, kept in step with it (the scan compares hashes first: responses of 2^16 PDUs) */
+struct hashlist {
+	uint32_t *h;
+	size_t cap;
+};
+static struct hashlist cb_pfx_h, cb_key_h;
+
+static uint32_t str_hash(const char *s)
+{
+	uint32_t h = 2166136261u;
+
+	for (; *s; s++)
+		h = (h ^ (uint8_t)*s) * 16777619u;
+	return h;
+}
+
 static void shadow_apply(struct strlist *l, const char *what, const char *s, bool added)
 {
 	size_t i;
+	struct hashlist *hl = l == &cb_pfx ? &cb_pfx_h : &cb_key_h;
+	const uint32_t hs = str_hash(s);
 
 	for (i = 0; i < l->n; i++)
-		if (!strcmp(l->v[i], s))
+		if (hl->h[i] == hs && !strcmp(l->v[i], s))
 			break;
 	if (added) {
-		if (i < l->n && !cb_bad[0])
+		if (i < l->n && !cb_bad[0]) {
 			snprintf(cb_bad, sizeof(cb_bad), "%s announced twice by the callback: %.300s", what, s);
-		else if (i == l->n)
+		} else if (i == l->n) {
 			sl_add(l, s);
+			if (l->n > hl->cap) {
+				hl->cap = 2 * l->n + 64;
+				hl->h = realloc(hl->h, hl->cap * sizeof(uint32_t));
+			}
+			hl->h[l->n - 1] = hs;
+		}
 	} else {
 		if (i == l->n) {
 			if (!cb_bad[0])
@@ -315,6 +339,7 @@ static void shadow_apply(struct strlist *l, const char *what, const char *s, boo
 		} else {
 			free(l->v[i]);
 			l->v[i] = l->v[--l->n];
+			hl->h[i] = hl->h[l->n];
 		}
 	}
 }
@@ -352,8 +377,13 @@ static void shadow_check(const char *what, struct strlist *shadow, struct strlis
 {
 	bool same = shadow->n == table->n;
 
-	if (shadow->n)
+	if (shadow->n) {
+		struct hashlist *hl = shadow == &cb_pfx ? &cb_pfx_h : &cb_key_h;
+
 		qsort(shadow->v, shadow->n, sizeof(char *), cmpstr);
+		for (size_t i = 0; i < shadow->n; i++)
+			hl->h[i] = str_hash(shadow->v[i]);
+	}
 	for (size_t i = 0; same && i < table->n; i++)
 		same = !strcmp(shadow->v[i], table->v[i]);
 	if (!same && !cb_bad[0])
